@@ -260,6 +260,7 @@ type srvRun struct {
 	cl      *rawc.C
 	unread  func() int
 	replies map[uint16][]byte
+	holding bool // the Twrites are still held inside the implementation
 }
 
 // next waits for one frame from the server. It returns a hangErr after
@@ -284,7 +285,7 @@ func (r *srvRun) next(what string) ([]byte, error) {
 		}
 		lastEv = ev
 		if idle >= idlePolls {
-			return nil, fmt.Errorf("%s: the server has read the whole stream and is idle, but only %d of %d requests were answered (missing: %s)", what, len(r.replies), len(r.b.preds), r.missing())
+			return nil, fmt.Errorf("%s: the server has read the whole stream and is idle, but only %d of %d requests were answered (not answered, leaving aside requests the implementation still holds:%s)", what, len(r.replies), len(r.b.preds), r.missing())
 		}
 		if time.Since(start) > hangAfter {
 			return nil, hangErr(fmt.Sprintf("%s: %d of %d replies after %v", what, len(r.replies), len(r.b.preds), hangAfter))
@@ -296,6 +297,9 @@ func (r *srvRun) missing() string {
 	s := ""
 	n := 0
 	for _, p := range r.b.preds {
+		if p.hold && r.holding {
+			continue
+		}
 		if _, ok := r.replies[p.tag]; !ok {
 			if n++; n > 6 {
 				return s + " …"
@@ -400,6 +404,7 @@ func runServer(c *Case, b *built, cuts []int) (*obs, error) {
 	}
 	// The last frame's reply proves that the receive loop has taken every
 	// earlier frame; only then are the held Twrites released.
+	r.holding = true
 	for r.replies[fenceTag] == nil {
 		f, err := r.next("before the release of the held Twrites")
 		if err != nil {
@@ -417,6 +422,7 @@ func runServer(c *Case, b *built, cuts []int) (*obs, error) {
 		}
 	}
 	sv.S.ReleaseAll()
+	r.holding = false
 	for len(r.replies) < len(b.preds) {
 		f, err := r.next("after the release of the held Twrites")
 		if err != nil {
